@@ -34,6 +34,13 @@ CHECKS = {
  "C04": dict(category="model_checking", technique="bounded-exhaustive enumeration of NUL/8-bit patterns x inputs over {\\0,\\x80,\\xff,a,b} x all table representations x -I/-B x %pointer/%array x API, one byte per read with 1-3 byte buffers, through yylex() against the reference DFA; refusal table for 8-bit patterns in 7-bit scanners",
    text="Every pattern of <= 1 operator over nine NUL/high-byte atoms (with the competitor a\\0b forcing back-up around NUL) x every input up to length L in all eight table representations (-Cem,-Cm,-Ce,-C,-Cf,-Cfe,-CF,-CFe) x interactive/batch x %pointer/%array x non-reentrant/reentrant/c99, delivered one byte at a time into buffers of 1, 2, 3 bytes and whole; one-operation histories (yyunput('\\0'), yyless over a NUL, yyinput on a NUL, yymore carrying a NUL) and all reject decisions; a 256-rule spec reaching 256 equivalence classes; 7-bit scanners compared on all 7-bit inputs; each 8-bit spelling under -7 / default -Cf / -CF must be refused with a message.",
    note="-8 passed explicitly for full/fast tables (7-bit by default, documented); -I is not combined with full/fast tables (always batch).", design="2/C04"),
+
+ "C10": dict(category="model_checking", engine="buffer-history-driver", technique="depth-first exploration of end-of-input histories on the real scanner (choice points: yywrap's answer, the ending of each <<EOF>> action, yyrestart / new yyin after termination), for every assignment of <<EOF>> rules to three start conditions, against a per-buffer reference model",
+   text="For each of the 24 <<EOF>> rule assignments (qualified subsets of {INITIAL,A,B}, one rule or one per condition, with/without a trailing unqualified rule) in non-reentrant, reentrant and c99 scanners with whole, 1- and 2-byte reads (and -Cf/-CFe/-B): every history within the deviation bound in which yywrap stops / points yyin at another source / switches to a new buffer, the <<EOF>> action terminates / pops / assigns yyin / returns, and the caller restarts or assigns yyin after termination.  Checked at every step: all bytes already read are tokenised first, yywrap is consulted exactly when the current source is exhausted, exactly the <<EOF>> rule of the current condition runs exactly once, yylex's return values, the start condition never changes, a new source starts at beginning of line and nothing of either source is lost.",
+   note="Undefined uses are not generated (yylex after termination without a new source; a FILE given to an in-memory buffer; unqualified <<EOF>> before qualified ones).", design="2/C10"),
+ "C11": dict(category="model_checking", engine="buffer-history-driver", technique="deviation-bounded depth-first exploration of buffer-operation histories (12 API calls between yylex calls with exhaustive arguments, pushes from inside actions, yywrap/EOF answers) on the real scanner against one reference scanner per buffer; directed nesting to depth 37",
+   text="Histories with up to 3 (quick) / 4 (thorough) non-default choices over yylex, create+switch, create+push, pop, switch, flush, delete, yy_scan_bytes/string/buffer (good and without the two NULs), yyrestart, the include idiom (push from an action) and yywrap popping/switching, in non-reentrant, reentrant and c99 scanners with whole, 1-, 2- and 3-byte reads, -Cf and reject: every token must be the next token of the current buffer's own content at that buffer's own position and beginning-of-line state; reads must be requested only for the current buffer's source; API return values (NULL for a bad yy_scan_buffer, the buffer returned to by pop) are compared; scan_bytes/string must work on a private copy (the caller's array is overwritten after the call).",
+   note="Uses the manual forbids or leaves open are not generated; 18 M executions in the quick tier.", design="2/C11"),
 }
 
 NOT_YET = "check under construction in this round; will be claimed once it has run end-to-end on the unchanged tree"
@@ -47,7 +54,9 @@ def main():
                "baseline_off_cmd": "cd /repo && make -k -j8 check VERBOSE=1",
                "source_commits": [], "add_only": True},
      "engines": [
-       {"name": "lockstep-harness", "path": "csrc/vf_driver.h", "serves_properties": sorted(CHECKS),
+       {"name": "buffer-history-driver", "path": "csrc/vf_bufdriver.h", "serves_properties": ["C10", "C11", "C13", "C14"],
+        "kind_free_text": "generated scanner #included into a driver that sits between yylex() calls and explores API-call histories depth-first with a deviation bound; per-buffer reference scanners, buffer stack and start-condition model"},
+       {"name": "lockstep-harness", "path": "csrc/vf_driver.h", "serves_properties": sorted(k for k in CHECKS if CHECKS[k].get("engine", "lockstep-harness") == "lockstep-harness"),
         "kind_free_text": "generated scanner #included into a driver that enumerates inputs / choice vectors depth-first and compares every action with a reference scanner model (csrc/refscan.h over DFAs from vflib/refsem.py)"},
      ],
      "checks": [],
